@@ -116,6 +116,9 @@ Proof.
   - assert (i = lo) by lia; subst. eauto.
 Qed.
 
+Local Arguments for_up : simpl never.
+Local Arguments for_down : simpl never.
+
 (* ------------------------------------------------------------------ primitives *)
 Lemma item_at_ok (s : arr) i v : i < cnt s -> get (cells s) i = Live v -> item_at V s i = Ok v.
 Proof. intros Hi Hg. unfold item_at, live_at. destruct (Nat.ltb_spec i (cnt s)); [|lia]. rewrite Hg; auto. Qed.
@@ -192,12 +195,12 @@ Variable vals : nat -> V.
 Variable Q : nat -> list cell -> Prop.
 
 Definition assign_hyp := forall m k dst (s : arr),
-  k < count -> index <= dst -> dst < cnt s -> get (cells s) dst <> Raw -> Q m (firstn index (cells s)) ->
+  m < count -> k < count -> index <= dst -> dst < cnt s -> get (cells s) dst <> Raw -> Q m (firstn index (cells s)) ->
   exists c', src_assign V src k dst s = Ok (mkArr c' (cnt s)) /\ length c' = length (cells s) /\
     (forall j, index <= j -> get c' j = if j =? dst then Live (vals k) else get (cells s) j) /\
     Q (S m) (firstn index c').
 Definition push_hyp := forall m k (s : arr),
-  k < count -> index <= cnt s -> cnt s < cap s -> get (cells s) (cnt s) = Raw -> Q m (firstn index (cells s)) ->
+  m < count -> k < count -> index <= cnt s -> cnt s < cap s -> get (cells s) (cnt s) = Raw -> Q m (firstn index (cells s)) ->
   exists c', src_push V src k s = Ok (mkArr c' (S (cnt s))) /\ length c' = length (cells s) /\
     (forall j, index <= j -> get c' j = if j =? cnt s then Live (vals k) else get (cells s) j) /\
     Q (S m) (firstn index c').
@@ -234,7 +237,7 @@ Lemma insert_case_A :
   index + count < n ->
   exists s', insert_nogrow_gen V self_move after_move true src s0 index count = Ok s' /\ post s'.
 Proof.
-  intros HA. unfold insert_nogrow_gen. fold n. fold C.
+  intros HA. unfold insert_nogrow_gen. cbv zeta. fold n. fold C.
   destruct (Nat.leb_spec index n); [|lia]. destruct (Nat.leb_spec (n + count) C); [|lia].
   destruct (Nat.eqb_spec count 0); [lia|]. destruct (Nat.ltb_spec (index + count) n); [|lia]. simpl.
   (* loop 1 *)
@@ -246,7 +249,7 @@ Proof.
     as (s1 & -> & (Hc1 & Hl1 & Hp1 & Hg1)); try lia.
   { intros i s Hlo Hi (Hc & Hl & Hp & Hg).
     rewrite (add_back_move_item_ok s i (f i)).
-    - eexists; split; [reflexivity|]. unfold I1; simpl. rewrite !length_set. repeat split; try lia.
+    - eexists; split; [reflexivity|]. unfold I1; cbn [cells cnt]. rewrite !length_set. repeat split; try lia.
       + rewrite !firstn_set_ge by lia. auto.
       + intros j Hj. rewrite get_set by (rewrite length_set; lia). rewrite get_set by lia. rewrite Hg by auto. cases.
         f_equal. f_equal. lia.
@@ -255,7 +258,7 @@ Proof.
     - unfold cap. lia.
     - rewrite Hg by lia. cases. }
   { unfold I1. repeat split; auto; try (fold n; fold C; lia).
-    intros j Hj. cases; [apply Hlive; lia | apply Hlive; lia | apply Hraw; lia]. }
+    intros j Hj. cases; first [apply Hlive; lia | apply Hraw; lia]. }
   simpl.
   (* loop 2 *)
   pose (I2 := fun i (s : arr) => cnt s = n + count /\ length (cells s) = C /\ firstn index (cells s) = firstn index (cells s0) /\
@@ -267,7 +270,7 @@ Proof.
   { intros i s Hi Hhi (Hc & Hl & Hp & Hlo & Hmid & Hhigh).
     assert (Hlt : i + count - 1 < length (cells s)) by (apply get_not_raw_lt; apply Hmid; lia).
     rewrite (move_assign_items_ok s (i - 1) (i + count - 1) (f (i - 1))); try lia.
-    - eexists; split; [reflexivity|]. unfold I2; simpl. rewrite !length_set. repeat split; try lia.
+    - eexists; split; [reflexivity|]. unfold I2; cbn [cells cnt]. rewrite !length_set. repeat split; try lia.
       + rewrite !firstn_set_ge by lia. auto.
       + intros j Hj1 Hj2. rewrite !get_set_other by lia. apply Hlo; lia.
       + intros j Hj1 Hj2. rewrite get_set by (rewrite length_set; lia).
@@ -295,20 +298,18 @@ Proof.
   destruct (for_up_inv I3 (fun i s => src_assign V src (i - index) i s) index (index + count))
     with (fuel := S C) (i := index) (s := s2) as (s3 & -> & (Hc3 & Hl3 & HQ3 & Hlo3 & _ & Hhi3)); try lia.
   { intros i s Hge Hi (Hc & Hl & HQ & Hlo & Hmid & Hhigh).
-    destruct (Hassign (i - index) (i - index) i s) as (c' & He & Hl' & Hg' & HQ'); try lia; auto.
-    - apply Hmid; lia.
-    - rewrite He. eexists; split; [reflexivity|]. unfold I3; simpl. repeat split; try lia.
+    destruct (Hassign (i - index) (i - index) i s ltac:(lia) ltac:(lia) ltac:(lia) ltac:(lia) (Hmid i ltac:(lia) ltac:(lia)) HQ)
+      as (c' & He & Hl' & Hg' & HQ').
+    { rewrite He. eexists; split; [reflexivity|]. unfold I3; cbn [cells cnt]. repeat split; try lia.
       + replace (S i - index) with (S (i - index)) by lia. auto.
       + intros j Hj1 Hj2. rewrite Hg' by lia. destruct (Nat.eqb_spec j i); [subst; auto|]. apply Hlo; lia.
       + intros j Hj1 Hj2. rewrite Hg' by lia. destruct (Nat.eqb_spec j i); [lia|]. apply Hmid; lia.
-      + intros j Hj. rewrite Hg' by lia. destruct (Nat.eqb_spec j i); [lia|]. apply Hhigh; lia. }
-  { unfold I3. repeat split; auto; try lia.
-    - rewrite Nat.sub_diag. rewrite Hp2. auto.
-    - intros j Hj1 Hj2. lia.
-    - intros j Hj1 Hj2. apply Hn2; lia. }
+      + intros j Hj. rewrite Hg' by lia. destruct (Nat.eqb_spec j i); [lia|]. apply Hhigh; lia. } }
+  { unfold I3. repeat split; auto; try lia; try (intros j Hj1 Hj2; apply Hn2; lia).
+    rewrite Nat.sub_diag. rewrite Hp2. auto. }
   eexists; split; [reflexivity|]. unfold post. repeat split; auto.
   - replace (index + count - index) with count in HQ3 by lia. auto.
-  - intros j Hj. cases; [apply Hlo3; lia | rewrite Hhi3 by lia; cases | rewrite Hhi3 by lia; cases].
+  - intros j Hj. cases; first [apply Hlo3; lia | rewrite Hhi3 by lia; cases].
 Qed.
 
 (* case B: index + count >= initCount *)
@@ -316,7 +317,7 @@ Lemma insert_case_B :
   n <= index + count ->
   exists s', insert_nogrow_gen V self_move after_move true src s0 index count = Ok s' /\ post s'.
 Proof.
-  intros HB. unfold insert_nogrow_gen. fold n. fold C.
+  intros HB. unfold insert_nogrow_gen. cbv zeta. fold n. fold C.
   destruct (Nat.leb_spec index n); [|lia]. destruct (Nat.leb_spec (n + count) C); [|lia].
   destruct (Nat.eqb_spec count 0); [lia|]. destruct (Nat.ltb_spec (index + count) n); [lia|]. simpl.
   pose (I1 := fun i (s : arr) => cnt s = i /\ length (cells s) = C /\ Q (i - n) (firstn index (cells s)) /\
@@ -325,15 +326,14 @@ Proof.
   destruct (for_up_inv I1 (fun i s => src_push V src (i - index) s) n (index + count)) with (fuel := S C) (i := n) (s := s0)
     as (s1 & -> & (Hc1 & Hl1 & HQ1 & Hg1)); try lia.
   { intros i s Hge Hi (Hc & Hl & HQ & Hg).
-    destruct (Hpush (i - n) (i - index) s) as (c' & He & Hl' & Hg' & HQ'); try lia; auto.
-    - unfold cap; lia.
-    - rewrite Hg by lia. cases.
-    - rewrite He, Hc. eexists; split; [reflexivity|]. unfold I1; simpl. repeat split; try lia.
+    assert (Hr : get (cells s) (cnt s) = Raw) by (rewrite Hg by lia; cases).
+    destruct (Hpush (i - n) (i - index) s ltac:(lia) ltac:(lia) ltac:(lia) ltac:(unfold cap; lia) Hr HQ) as (c' & He & Hl' & Hg' & HQ').
+    { rewrite He, Hc. eexists; split; [reflexivity|]. unfold I1; cbn [cells cnt]. repeat split; try lia.
       + replace (S i - n) with (S (i - n)) by lia. auto.
-      + intros j Hj. rewrite Hg' by lia. rewrite Hc. rewrite Hg by lia. cases. }
+      + intros j Hj. rewrite Hg' by lia. rewrite Hc. rewrite Hg by lia. cases. } }
   { unfold I1. repeat split; auto; try (fold n; fold C; lia).
     - rewrite Nat.sub_diag. auto.
-    - intros j Hj. cases; [apply Hlive; lia | apply Hraw; lia]. }
+    - intros j Hj. cases; first [apply Hlive; lia | apply Hraw; lia]. }
   simpl.
   pose (I2 := fun i (s : arr) => cnt s = count + i /\ length (cells s) = C /\
      Q ((index + count - n) + (i - index)) (firstn index (cells s)) /\
@@ -344,22 +344,21 @@ Proof.
   destruct (for_up_inv I2 (fun i s => s' <- add_back_move_item V after_move s i ;; src_assign V src (i - index) i s') index n)
     with (fuel := S C) (i := index) (s := s1) as (s2 & -> & (Hc2 & Hl2 & HQ2 & Hg2)); try lia.
   { intros i s Hge Hi (Hc & Hl & HQ & Hg).
-    rewrite (add_back_move_item_ok s i (f i)); try lia.
-    - simpl.
-      match goal with |- context [src_assign V src ?k ?d ?s'] =>
-        destruct (Hassign ((index + count - n) + (i - index)) k d s') as (c' & He & Hl' & Hg' & HQ') end;
-        simpl; try lia.
-      + rewrite get_set by (rewrite length_set; lia). rewrite Nat.eqb_refl. apply mcell_not_raw.
-      + rewrite !firstn_set_ge by lia. auto.
-      + simpl in He. rewrite He. eexists; split; [reflexivity|]. unfold I2; simpl.
-        rewrite !length_set in Hl'. repeat split; try lia.
-        * replace (index + count - n + (S i - index)) with (S (index + count - n + (i - index))) by lia. auto.
-        * intros j Hj. rewrite Hg' by lia.
-          rewrite get_set by (rewrite length_set; lia). rewrite get_set by lia. rewrite Hg by lia. cases.
-          f_equal. f_equal. lia.
-    - rewrite Hg by lia. cases.
-    - unfold cap. lia.
-    - rewrite Hg by lia. cases. }
+    assert (Hsrc : get (cells s) i = Live (f i)) by (rewrite Hg by lia; cases).
+    assert (Hr : get (cells s) (cnt s) = Raw) by (rewrite Hg by lia; cases).
+    rewrite (add_back_move_item_ok s i (f i) ltac:(lia) Hsrc ltac:(unfold cap; lia) Hr). simpl.
+    set (s' := mkArr (set (set (cells s) (cnt s) (Live (f i))) i (mcell (after_move (f i)))) (S (cnt s))).
+    assert (Hd : get (cells s') i <> Raw).
+    { unfold s'; simpl. rewrite get_set by (rewrite length_set; lia). rewrite Nat.eqb_refl. apply mcell_not_raw. }
+    assert (HQs : Q ((index + count - n) + (i - index)) (firstn index (cells s'))).
+    { unfold s'; simpl. rewrite !firstn_set_ge by lia. auto. }
+    destruct (Hassign ((index + count - n) + (i - index)) (i - index) i s' ltac:(lia) ltac:(lia) ltac:(lia) ltac:(unfold s'; simpl; lia) Hd HQs) as (c' & He & Hl' & Hg' & HQ').
+    rewrite He. eexists; split; [reflexivity|]. unfold I2; cbn [cells cnt].
+    unfold s' in Hl', Hg'; simpl in Hl', Hg'. rewrite !length_set in Hl'. repeat split; try lia; try (unfold s'; simpl; lia).
+    * replace (index + count - n + (S i - index)) with (S (index + count - n + (i - index))) by lia. auto.
+    * intros j Hj. rewrite Hg' by lia.
+      rewrite get_set by (rewrite length_set; lia). rewrite get_set by lia. rewrite Hg by lia. cases.
+      f_equal. f_equal. lia. }
   { unfold I2. repeat split; auto; try lia.
     - rewrite Nat.sub_diag, Nat.add_0_r. auto.
     - intros j Hj. rewrite Hg1 by lia. cases. }
@@ -375,4 +374,276 @@ Proof.
 Qed.
 End Insert.
 
+(* ================================================================== list-level statements *)
+Lemma get_ext (a b : list cell) : length a = length b -> (forall j, get a j = get b j) -> a = b.
+Proof. intros Hl H. apply (nth_ext _ _ Raw Raw); auto. intros j _. apply H. Qed.
+
+Lemma get_firstn (c : list cell) k j : j < k -> get (firstn k c) j = get c j.
+Proof. intros. unfold get. apply nth_firstn_lt; auto. Qed.
+
+Lemma length_lives_raws (l : list V) r : length (lives l ++ raws r) = length l + r.
+Proof. unfold lives, raws. rewrite app_length, map_length, repeat_length. reflexivity. Qed.
+
+Lemma firstn_lives_raws (l : list V) r k : k <= length l -> firstn k (lives l ++ raws r) = lives (firstn k l).
+Proof.
+  intros. unfold lives. rewrite firstn_app, map_length. replace (k - length l) with 0 by lia.
+  simpl. rewrite app_nil_r. apply firstn_map.
+Qed.
+
+Lemma nth_spec (l mid : list V) index j d :
+  index <= length l ->
+  nth j (firstn index l ++ mid ++ skipn index l) d =
+    if j <? index then nth j l d else if j <? index + length mid then nth (j - index) mid d else nth (j - length mid) l d.
+Proof.
+  intros Hi. assert (Hf : length (firstn index l) = index) by (rewrite firstn_length; lia).
+  destruct (Nat.ltb_spec j index).
+  - rewrite app_nth1 by lia. apply nth_firstn_lt; auto.
+  - rewrite app_nth2 by lia. rewrite Hf. destruct (Nat.ltb_spec j (index + length mid)).
+    + rewrite app_nth1 by lia. reflexivity.
+    + rewrite app_nth2 by lia. rewrite nth_skipn_. f_equal. lia.
+Qed.
+
+Lemma length_spec (l mid : list V) index : index <= length l ->
+  length (firstn index l ++ mid ++ skipn index l) = length l + length mid.
+Proof. intros. rewrite !app_length, firstn_length, skipn_length. lia. Qed.
+
+(* from the pointwise post-condition to the list equality *)
+Lemma insert_finish (l mid : list V) r index (c' : list cell) d :
+  index <= length l -> length mid <= r ->
+  length c' = length l + r ->
+  (forall j, j < index -> get c' j = Live (nth j l d)) ->
+  (forall j, index <= j -> get c' j =
+     if j <? index + length mid then Live (nth (j - index) mid d)
+     else if j <? length l + length mid then Live (nth (j - length mid) l d) else Raw) ->
+  c' = lives (firstn index l ++ mid ++ skipn index l) ++ raws (r - length mid).
+Proof.
+  intros Hi Hm Hl Hlo Hhi. apply get_ext.
+  - rewrite length_lives_raws, length_spec by auto. lia.
+  - intros j. rewrite (get_lives_raws _ _ _ d), length_spec, nth_spec by auto.
+    destruct (Nat.ltb_spec j index).
+    + rewrite Hlo by auto. destruct (Nat.ltb_spec j (length l + length mid)); [auto|lia].
+    + rewrite Hhi by auto.
+      destruct (Nat.ltb_spec j (index + length mid)), (Nat.ltb_spec j (length l + length mid)); auto; lia.
+Qed.
+
+Lemma arr_of_pre (l : list V) r d :
+  let s0 := arr_of l r in
+  cnt s0 = length l /\ cap s0 = length l + r /\
+  (forall j, j < length l -> get (cells s0) j = Live (nth j l d)) /\
+  (forall j, length l <= j -> get (cells s0) j = Raw).
+Proof.
+  simpl. unfold cap; simpl. rewrite length_lives_raws. repeat split; auto.
+  - intros j Hj. rewrite (get_lives_raws _ _ _ d). destruct (Nat.ltb_spec j (length l)); [auto|lia].
+  - intros j Hj. rewrite (get_lives_raws _ _ _ d). destruct (Nat.ltb_spec j (length l)); [lia|auto].
+Qed.
+
+(* an argument ArrayShifter may be handed: a temporary / external value, or an element in FRONT of the insertion
+   point (Array::Insert copies every other aliased element into an ArrayItemHandler first) *)
+Definition arg_ok (index : nat) (x : arg V) : Prop := match x with ArgVal _ => True | ArgRef p => p < index end.
+Definition arg_val (l : list V) (d : V) (x : arg V) : V := match x with ArgVal v => v | ArgRef p => nth p l d end.
+
+Lemma read_arg_prefix (s s0 : arr) index (l : list V) d x :
+  arg_ok index x -> index <= length l ->
+  firstn index (cells s) = firstn index (cells s0) ->
+  (forall j, j < length l -> get (cells s0) j = Live (nth j l d)) ->
+  read_arg V s x = Ok (arg_val l d x).
+Proof.
+  intros Hx Hi Hp Hl. destruct x as [v|p]; simpl; auto. simpl in Hx. unfold live_at.
+  rewrite <- (get_firstn (cells s) index p) by auto. rewrite Hp. rewrite get_firstn by auto.
+  rewrite Hl by lia. reflexivity.
+Qed.
+
+(* sources that only read: count copies of one item, or a forward range *)
+Lemma pure_source_hyps (src : source V) (s0 : arr) index count (l : list V) d (xs : nat -> arg V) :
+  index <= length l ->
+  (forall j, j < length l -> get (cells s0) j = Live (nth j l d)) ->
+  (forall k, k < count -> arg_ok index (xs k)) ->
+  (forall k dst s, k < count -> src_assign V src k dst s = (v <- read_arg V s (xs k) ;; assign_val V s v dst)) ->
+  (forall k s, k < count -> src_push V src k s = (v <- read_arg V s (xs k) ;; add_back_ctor V s v)) ->
+  assign_hyp src index count (fun k => arg_val l d (xs k)) (fun _ p => p = firstn index (cells s0)) /\
+  push_hyp src index count (fun k => arg_val l d (xs k)) (fun _ p => p = firstn index (cells s0)).
+Proof.
+  intros Hi Hl Hok Ha Hp. split.
+  - intros m k dst s Hm Hk Hd1 Hd2 Hd3 HQ.
+    rewrite Ha by auto. rewrite (read_arg_prefix s s0 index l d) by auto. simpl.
+    rewrite assign_val_ok by auto. unfold upd.
+    assert (dst < length (cells s)) by (apply get_not_raw_lt; auto).
+    eexists; split; [reflexivity|]. rewrite length_set. repeat split; auto.
+    + intros j Hj. apply get_set; auto.
+    + rewrite firstn_set_ge by auto. auto.
+  - intros m k s Hm Hk Hc1 Hc2 Hr HQ.
+    rewrite Hp by auto. rewrite (read_arg_prefix s s0 index l d) by auto. simpl.
+    rewrite add_back_ctor_ok by auto.
+    eexists; split; [reflexivity|]. rewrite length_set. repeat split; auto.
+    + intros j Hj. apply get_set; auto.
+    + rewrite firstn_set_ge by auto. auto.
+Qed.
+
+Lemma insert_pure_refines (src : source V) (l : list V) r index (mid : list V) d (xs : nat -> arg V) :
+  index <= length l -> length mid <= r -> 0 < length mid ->
+  (forall k, k < length mid -> arg_ok index (xs k)) ->
+  (forall k, k < length mid -> nth k mid d = arg_val l d (xs k)) ->
+  (forall k dst s, k < length mid -> src_assign V src k dst s = (v <- read_arg V s (xs k) ;; assign_val V s v dst)) ->
+  (forall k s, k < length mid -> src_push V src k s = (v <- read_arg V s (xs k) ;; add_back_ctor V s v)) ->
+  insert_nogrow_gen V self_move after_move true src (arr_of l r) index (length mid) =
+    Ok (arr_of (firstn index l ++ mid ++ skipn index l) (r - length mid)).
+Proof.
+  intros Hi Hm Hpos Hok Hmid Ha Hp.
+  destruct (arr_of_pre l r d) as (Hc & Hcap & Hlive & Hraw).
+  destruct (pure_source_hyps src (arr_of l r) index (length mid) l d xs Hi Hlive Hok Ha Hp) as (HA & HP).
+  destruct (insert_nogrow_gen_post src index (length mid) _ _ HA HP (arr_of l r) (fun j => nth j l d))
+    as (s' & -> & (Hc' & Hl' & HQ' & Hg')); try (rewrite ?Hc, ?Hcap; lia); auto.
+  f_equal. destruct s' as [c' n']. simpl in *. unfold arr_of. rewrite length_spec by auto. f_equal; [|lia].
+  unfold cap in Hcap; simpl in Hcap. rewrite length_lives_raws in *.
+  apply (insert_finish l mid r index c' d); auto; try lia.
+  - rewrite Hl'. unfold cap, arr_of; simpl. apply length_lives_raws.
+  - intros j Hj. rewrite <- (get_firstn c' index j) by auto. rewrite HQ'. rewrite get_firstn by auto. apply Hlive; lia.
+  - intros j Hj. rewrite Hg' by auto.
+    destruct (Nat.ltb_spec j (index + length mid)); [rewrite Hmid by lia; auto|]. reflexivity.
+Qed.
+
+(* ---- InsertNogrow(array, index, count, const Item& item) ---- *)
+Theorem insert_copies_refines (l : list V) r index count (x : arg V) d :
+  index <= length l -> count <= r -> arg_ok index x ->
+  insert_nogrow_copies V self_move after_move true (arr_of l r) index count x =
+    Ok (arr_of (firstn index l ++ repeat (arg_val l d x) count ++ skipn index l) (r - count)).
+Proof.
+  intros Hi Hc Hx. unfold insert_nogrow_copies.
+  destruct (Nat.eq_dec count 0) as [->|Hne].
+  - unfold insert_nogrow_gen. simpl. unfold cap; simpl. rewrite length_lives_raws.
+    destruct (Nat.leb_spec index (length l)); [|lia]. destruct (Nat.leb_spec (length l + 0) (length l + r)); [|lia].
+    simpl. rewrite firstn_skipn, Nat.sub_0_r. reflexivity.
+  - pose proof (insert_pure_refines (source_copies V x) l r index (repeat (arg_val l d x) count) d (fun _ => x)) as H.
+    rewrite repeat_length in H. apply H; auto; try lia.
+    intros k Hk. apply nth_error_nth. rewrite nth_error_repeat; auto.
+Qed.
+
+(* ---- InsertNogrow(array, index, begin, count) over a forward range ---- *)
+Theorem insert_range_refines (l : list V) r index (xs : list (arg V)) d :
+  index <= length l -> length xs <= r -> Forall (arg_ok index) xs ->
+  insert_nogrow_range V self_move after_move true (arr_of l r) index xs =
+    Ok (arr_of (firstn index l ++ map (arg_val l d) xs ++ skipn index l) (r - length xs)).
+Proof.
+  intros Hi Hc Hx. unfold insert_nogrow_range.
+  destruct xs as [|x0 xs'].
+  - unfold insert_nogrow_gen. simpl. unfold cap; simpl. rewrite length_lives_raws.
+    destruct (Nat.leb_spec index (length l)); [|lia]. destruct (Nat.leb_spec (length l + 0) (length l + r)); [|lia].
+    simpl. rewrite firstn_skipn, Nat.sub_0_r. reflexivity.
+  - set (xs := x0 :: xs') in *.
+    pose proof (insert_pure_refines (source_range V xs) l r index (map (arg_val l d) xs) d (fun k => nth k xs x0)) as H.
+    rewrite map_length in H. apply H; auto; try (unfold xs; simpl; lia).
+    + intros k Hk. rewrite Forall_forall in Hx. apply Hx. apply nth_In; auto.
+    + intros k Hk. rewrite (nth_indep _ d (arg_val l d x0)) by (rewrite map_length; auto). apply map_nth.
+    + intros k dst s Hk. simpl. rewrite (nth_error_nth' xs x0) by auto. reflexivity.
+    + intros k s Hk. simpl. rewrite (nth_error_nth' xs x0) by auto. reflexivity.
+Qed.
+
+(* ================================================================== Remove(index, count) *)
+Ltac cases2 :=
+  repeat match goal with
+  | |- context [?a <? ?b] => destruct (Nat.ltb_spec a b)
+  | |- context [?a =? ?b] => destruct (Nat.eqb_spec a b)
+  | |- context [?a <=? ?b] => destruct (Nat.leb_spec a b)
+  end; simpl; try lia; try congruence; auto.
+
+Theorem remove_refines (l : list V) r index count :
+  index + count <= length l ->
+  remove_range V self_move after_move true (arr_of l r) index count =
+    Ok (arr_of (firstn index l ++ skipn (index + count) l) (r + count)).
+Proof.
+  intros Hic. unfold remove_range. cbv zeta.
+  replace (cnt (arr_of l r)) with (length l) by reflexivity.
+  destruct (Nat.leb_spec (index + count) (length l)); [|lia]. cbn [negb].
+  destruct (Nat.eqb_spec count 0) as [->|Hne]; cbn [andb].
+  { rewrite !Nat.add_0_r, firstn_skipn. reflexivity. }
+  destruct l as [|d l']; [simpl in Hic; lia|]. set (l := d :: l') in *.
+  destruct (arr_of_pre l r d) as (Hc & Hcap & Hlive & Hraw). set (n := length l) in *.
+  pose (f := fun j => nth j l d).
+  pose (I := fun i (s : arr) => cnt s = n /\ length (cells s) = n + r /\
+     (forall j, j < index -> get (cells s) j = Live (f j)) /\
+     (forall j, index <= j -> j < i - count -> get (cells s) j = Live (f (j + count))) /\
+     (forall j, i - count <= j -> j < i -> get (cells s) j <> Raw) /\
+     (forall j, i <= j -> get (cells s) j = if j <? n then Live (f j) else Raw)).
+  destruct (for_up_inv I (fun i s => move_assign_items V self_move after_move s i (i - count)) (index + count) n)
+    with (fuel := S (cap (arr_of l r))) (i := index + count) (s := arr_of l r)
+    as (s1 & -> & (Hc1 & Hl1 & Hlo1 & Hmid1 & Hn1 & Hhi1)); try (rewrite ?Hcap; lia).
+  { intros i s Hlo Hi (Hcs & Hls & H1 & H2 & H3 & H4).
+    assert (Hsrc : get (cells s) i = Live (f i)) by (rewrite H4 by lia; cases2).
+    assert (Hdst : get (cells s) (i - count) <> Raw) by (apply H3; lia).
+    rewrite (move_assign_items_ok s i (i - count) (f i)); try lia; auto.
+    eexists; split; [reflexivity|]. unfold I; cbn [cells cnt]. rewrite !length_set. repeat split; auto.
+    - intros j Hj. rewrite !get_set_other by lia. auto.
+    - intros j Hj1 Hj2. rewrite get_set by (rewrite length_set; lia). rewrite get_set by lia.
+      destruct (Nat.eqb_spec j i); [lia|]. destruct (Nat.eqb_spec j (i - count)).
+      + subst j. f_equal. f_equal. lia.
+      + apply H2; lia.
+    - intros j Hj1 Hj2. rewrite get_set by (rewrite length_set; lia).
+      destruct (Nat.eqb_spec j i); [apply mcell_not_raw|]. rewrite get_set_other by lia. apply H3; lia.
+    - intros j Hj. rewrite !get_set_other by lia. apply H4; lia. }
+  { unfold I. split; [exact Hc|]. split; [unfold arr_of; cbn [cells]; apply length_lives_raws|].
+    split; [intros j Hj; apply Hlive; lia|]. split; [intros j Hj1 Hj2; lia|].
+    split; [intros j Hj1 Hj2; rewrite Hlive by lia; discriminate|].
+    intros j Hj. cases2; first [apply Hlive; lia | apply Hraw; lia]. }
+  simpl.
+  destruct (remove_back_ok s1 count) as (c' & -> & Hl' & Hg'); try (unfold cap; lia).
+  { intros j Hj. apply Hn1; lia. }
+  f_equal. unfold arr_of. rewrite Hc1.
+  assert (Hlen : length (firstn index l ++ skipn (index + count) l) = n - count).
+  { rewrite app_length, firstn_length, skipn_length. fold n. lia. }
+  rewrite Hlen. f_equal.
+  apply get_ext.
+  - rewrite length_lives_raws, Hlen, Hl'. unfold cap. lia.
+  - intros j. rewrite Hg', Hc1. rewrite (get_lives_raws _ _ _ d), Hlen.
+    destruct (Nat.ltb_spec j (n - count)).
+    + destruct (Nat.leb_spec (n - count) j); [lia|]. simpl.
+      destruct (Nat.lt_ge_cases j index).
+      * rewrite Hlo1 by auto. unfold f. f_equal. rewrite app_nth1 by (rewrite firstn_length; fold n; lia).
+        symmetry. apply nth_firstn_lt; auto.
+      * rewrite Hmid1 by lia. unfold f. f_equal. rewrite app_nth2 by (rewrite firstn_length; lia).
+        rewrite firstn_length. fold n. replace (Nat.min index n) with index by lia.
+        rewrite nth_skipn_. f_equal. lia.
+    + destruct (Nat.leb_spec (n - count) j); [|lia]. destruct (Nat.ltb_spec j n); simpl; auto.
+      rewrite Hhi1 by lia. cases2.
+Qed.
+
+(* ================================================================== empty ranges change nothing *)
+Theorem insert_count0_is_identity (src : source V) (s : arr) index :
+  index <= cnt s -> cnt s <= cap s ->
+  insert_nogrow_gen V self_move after_move true src s index 0 = Ok s.
+Proof.
+  intros Hi Hc. unfold insert_nogrow_gen. cbv zeta.
+  destruct (Nat.leb_spec index (cnt s)); [|lia]. destruct (Nat.leb_spec (cnt s + 0) (cap s)); [|lia]. reflexivity.
+Qed.
+
+Theorem remove_count0_is_identity (s : arr) index :
+  index <= cnt s -> remove_range V self_move after_move true s index 0 = Ok s.
+Proof.
+  intros Hi. unfold remove_range. cbv zeta. destruct (Nat.leb_spec (index + 0) (cnt s)); [|lia]. reflexivity.
+Qed.
+
 End Proofs.
+
+(* ================================================================== the pre-fix code shape is refuted (non-vacuity / mutant) *)
+(* before 62f9657 there was no `if (count == 0) return;`: an empty insert / remove in the middle of an array of
+   self-move-hostile elements (self_move = None) destroys the tail *)
+Example insert_count0_refuted :
+  exists (l : list nat) (index : nat), index <= length l /\
+    insert_nogrow_copies nat (fun _ => None) (fun _ => None) false (arr_of l 2) index 0 (ArgVal 7) <> Ok (arr_of l 2) /\
+    insert_nogrow_copies nat (fun _ => None) (fun _ => None) true (arr_of l 2) index 0 (ArgVal 7) = Ok (arr_of l 2).
+Proof. exists [1;2;3], 1. split; [simpl; lia|]. split; vm_compute; [discriminate|reflexivity]. Qed.
+
+Example remove_count0_refuted :
+  exists (l : list nat) (index : nat), index <= length l /\
+    remove_range nat (fun _ => None) (fun _ => None) false (arr_of l 0) index 0 <> Ok (arr_of l 0) /\
+    remove_range nat (fun _ => None) (fun _ => None) true (arr_of l 0) index 0 = Ok (arr_of l 0).
+Proof. exists [1;2;3], 1. split; [simpl; lia|]. split; vm_compute; [discriminate|reflexivity]. Qed.
+
+(* ... and for self-move-safe elements (self_move = Some) the old shape was harmless: the defect needs a hostile type *)
+Example insert_count0_prefix_ok_for_safe_types :
+  insert_nogrow_copies nat (fun v => Some v) (fun _ => None) false (arr_of [1;2;3] 2) 1 0 (ArgVal 7) = Ok (arr_of [1;2;3] 2).
+Proof. vm_compute. reflexivity. Qed.
+
+Example insert_example :
+  insert_nogrow_copies nat (fun _ => None) (fun _ => None) true (arr_of [10;11;12;13;14] 3) 1 2 (ArgRef 0)
+  = Ok (arr_of [10;10;10;11;12;13;14] 1).
+Proof. vm_compute. reflexivity. Qed.
